@@ -171,6 +171,47 @@ func c14Run(t *vk.T, proto string, n, th, rep int, env vk.Env) {
 			return
 		}
 		t.Distinct("%s|n=%d|t=%d|%s", proto, n, th, shape)
+		// a sibling derived from the very same parent objects, and the parent afterwards: derivation must not disturb its input
+		{
+			idx2, icls2 := c14Index(r, rep+step*5+n+3)
+			if idx2 == idx {
+				idx2 = (idx + 1) % (1 << 31)
+			}
+			want2, chain2, _, rerr2 := ref.CKDpub(parent, chain, idx2)
+			var sib fx.Mat
+			var serr error
+			if p, fr, txt := vk.Guard(func() { sib, serr = cur.Derive(idx2) }); p {
+				t.Violation(proto+"|derive-panic|"+fr, "%s sibling index=%d: %s", tag, idx2, txt)
+				return
+			}
+			if rerr2 == nil && serr == nil {
+				exp2 := want2
+				ss := sib.Shares()
+				if ss[0].XOnly && exp2.Y.Bit(0) == 1 {
+					exp2 = exp2.Neg()
+				}
+				t.Obs("sibling_derivations", 1)
+				t.Distinct("%s|sibling|%s+%s", proto, icls, icls2)
+				for _, s := range ss {
+					if s.Malformed != "" || !s.GroupKey.Equal(exp2) || !bytes.Equal(s.ChainKey, chain2) {
+						t.Violation(proto+"|second-derivation-from-same-parent-differs-from-BIP32", "%s: a second child (index %d) derived from the same parent material does not match BIP-32 at party %q", tag, idx2, s.ID)
+						return
+					}
+				}
+				if f, _ := fx.CheckMaterial(r, ss, &exp2, 20); len(f) > 0 {
+					t.Violation(proto+"|second-derivation-sharing|"+f[0][0], "%s sibling index=%d: %s", tag, idx2, f[0][1])
+					return
+				}
+				if f, _ := fx.CheckMaterial(r, cur.Shares(), &parent, 20); len(f) > 0 {
+					t.Violation(proto+"|derivation-corrupts-parent|"+f[0][0], "%s: after deriving children the parent material is no longer consistent: %s", tag, f[0][1])
+					return
+				}
+				if f, _ := fx.CheckMaterial(r, child.Shares(), &expect, 20); len(f) > 0 {
+					t.Violation(proto+"|derivation-corrupts-sibling|"+f[0][0], "%s: after deriving a sibling the first child is no longer consistent: %s", tag, f[0][1])
+					return
+				}
+			}
+		}
 		cur = child
 		// signing with derived material must succeed under the reference-derived key
 		if proto != "cmp" || steps == 1 || env.Thorough() {
